@@ -394,6 +394,15 @@ def main_check(h, tier, seed, replay=None):
     samples = []
     stats = {}
     observations = []
+    cov = None
+    anchor_files = [os.path.join(os.environ.get('VERIF_REPO', REPO), f) for f in getattr(h, 'ANCHOR_FILES', [])]
+    if anchor_files:
+        try:
+            import coverage
+            cov = coverage.Coverage(data_file=None, include=anchor_files, branch=False)
+            cov.start()
+        except Exception:
+            cov = None
     for i, case in enumerate(cases):
         obs = run_impl(h, case)
         observations.append(obs)
@@ -415,6 +424,19 @@ def main_check(h, tier, seed, replay=None):
         if len(samples) < 3 and i % max(1, len(cases) // 3) == 0:
             samples.append(_jsonable(h.sample_view(case, obs)))
     report['direct']['cases'] = len(cases)
+    anchored_cov = {}
+    if cov is not None:
+        try:
+            cov.stop()
+            for f in anchor_files:
+                try:
+                    _, stmts, _, missing, _ = cov.analysis2(f)
+                    anchored_cov[os.path.relpath(f, os.environ.get('VERIF_REPO', REPO))] = {
+                        'statements': len(stmts), 'executed': len(stmts) - len(missing), 'missing_lines': missing[:40]}
+                except Exception as e:
+                    anchored_cov[f] = {'error': str(e)}
+        except Exception:
+            pass
     # ---- T: tie B
     tie_fail = []
     if terms:
@@ -521,7 +543,7 @@ def main_check(h, tier, seed, replay=None):
             'tie_disagreements': len(tie_fail),
             'direct_oracle_violations': len(real), 'known_findings_hit': sorted(known_hit),
             'rule': getattr(h, 'RULE', ''), 'samples': samples[:3], 'case_stats': stats,
-            'exhaustive': False, 'broken': broken,
+            'exhaustive': False, 'broken': broken, 'anchored_line_coverage': anchored_cov,
         },
         'assumptions': h.ASSUMPTIONS,
         'wall_s': round(wall, 2), 'violations': len(new_viol) + (1 if (broken and not new_viol) else 0),
